@@ -293,7 +293,7 @@ class UART(LiteXModule, UARTInterface):
         self.timer = timer = WaitTimer(timeout*sys_clk_freq)
         self.comb += timer.wait.eq(~self.source.ready)
         self.sync += flush_count.eq(flush_count + 1)
-        self.comb += If(timer.done, flush_ep.ready.eq(flush_count == 0))
+        self.comb += If(timer.done, flush_ep.ready.eq(self.source.ready | (flush_count == 0)))
         #self.sync += If(flush_ep.valid & flush_ep.ready, Display("%c", flush_ep.data))
 
 # UART Bone ----------------------------------------------------------------------------------------
